@@ -660,6 +660,41 @@ func (e *simEnv) justified(js []judged, f *refmatch.Flow, t int, a netip.Addr, d
 	return nil
 }
 
+// noiseSynAckOnConnection: did the handle read a frame of a handshake-noise class that is a SYN|ACK from the target's
+// address and port to the connection's own local port?
+func (e *simEnv) noiseSynAckOnConnection() bool {
+	if e.peer == nil || e.handle == nil {
+		return false
+	}
+	lport := e.peer.LocalPort(e.handle.Idx)
+	if lport == 0 {
+		return false
+	}
+	e.w.Lock()
+	var ds []*simnet.Delivery
+	for _, d := range e.w.Deliveries {
+		if d.Handle == e.handle.Idx && d.Read && strings.HasPrefix(d.Frame.Class, "noise:handshake") {
+			ds = append(ds, d)
+		}
+	}
+	e.w.Unlock()
+	for _, d := range ds {
+		b := d.Frame.Bytes
+		if len(b) < 20 || b[0]>>4 != 4 || b[9] != 6 {
+			continue
+		}
+		ihl := int(b[0]&0x0f) * 4
+		if ihl < 20 || len(b) < ihl+14 || netip.AddrFrom4([4]byte(b[12:16])) != e.spec.Target {
+			continue
+		}
+		t := b[ihl:]
+		if binary.BigEndian.Uint16(t[0:2]) == e.spec.Port && binary.BigEndian.Uint16(t[2:4]) == lport && t[13]&0x12 == 0x12 {
+			return true
+		}
+	}
+	return false
+}
+
 // handshakeWithoutSackPerm: did the handle read a SYN|ACK from the target's address and port to the connection's own local
 // port (known from the peer's accepted connection) that carries no SACK-permitted option inside its data offset?
 func (e *simEnv) handshakeWithoutSackPerm(js []judged) bool {
